@@ -48,4 +48,17 @@ def isAscii (b : UInt8) : Bool := b < 128
 /-- decimal rendering of a natural number as bytes (Go `strconv.Itoa` on non-negative ints). -/
 def natToDec (n : Nat) : Bytes := (toString n).toUTF8.toList
 
+/-- internal/strings/strings.go:137 HasRegex: `/…/` with an even number of backslashes before the
+    closing slash; returns the text between the slashes -/
+def trailingBackslashes : Bytes → Nat
+  | [] => 0
+  | b :: t => if b == 0x5c then trailingBackslashes t + 1 else 0
+
+def hasRegex (s : Bytes) : Option Bytes :=
+  if s.length < 2 || s.head? != some 0x2f || s.getLast? != some 0x2f then none
+  else if s.length == 2 then some []
+  else
+    let inner := (s.drop 1).dropLast
+    if trailingBackslashes inner.reverse % 2 == 0 then some inner else none
+
 end Coraza
